@@ -1030,12 +1030,16 @@ fn typeface_to_word_mode(braille: &str) -> String {
         } else if ch == 'L' || ch == 'N' {
             result.push(chars[i]);
             result.push(chars[i+1]);
-            if !word_mode_end.is_empty() && i+2 < chars.len() && !(chars[i+2] == 'W'|| chars[i+2] == '𝐖') {
-                // add terminator unless word sequence is terminated by end of string or whitespace
-                for &ch in &word_mode_end {
-                    result.push(ch);
-                    result.push('e');
-                };
+            if !word_mode_end.is_empty() {
+                if i+2 < chars.len() && !(chars[i+2] == 'W'|| chars[i+2] == '𝐖') {
+                    // add terminator unless word sequence is terminated by end of string or whitespace
+                    for &ch in &word_mode_end {
+                        result.push(ch);
+                        result.push('e');
+                    };
+                }
+                // the typeface word has ended either way (whitespace ends it without a terminator): forget it, or the terminator
+                // would be written after the first letter/digit of whatever comes later
                 word_mode_end.clear();
             }
             i += 2; // eat Ll/Nd
